@@ -63,3 +63,32 @@ PROPS['C20'] = {
     'not_decided': ['uniformity over labelled topologies of RandomUniformBinaryTree (counting lemma)', 'quality of math/rand', 'ShuffleTips / RotateNeighbors permutations: not yet under contract'],
     'technique': 'contract-based deductive verification: loop bodies proved equal to the abstract reservoir step (VCs over go/ssa, z3/cvc5); expectation identities as real-arithmetic lemmas',
 }
+
+ALLPK = ['./tree', './hashmap', './io/...', './support', './acr', './asr', './cmd']
+
+PROPS['C08'] = {
+    'level': 'proof', 'claimed': True,
+    'claim': 'unbounded proof on the real worker closures of Compare and CompareWeighted that, for every received tree, exactly one record is sent which carries the tree identifier, has Tree1 + Common equal to the number of reference splits counted, and reports Sametree exactly when both specific counts are zero (Compare; one direction for CompareWeighted); that the split index is consulted only after the taxon check succeeded, and that an erroneous or mismatched tree yields a record with a non-nil error. Counting loop invariant: identical-so-far <=> every compared branch found',
+    'level_note': 'relative to the assumed (not yet verified) contracts of ReinitIndexes, Edges, CompareTipIndexes, EdgeIndex.Value/PutEdgeValue, the channel message invariant (a message is a tree or an error), and: "number of branches found" = "number of shared splits" needs distinct branches of one tree to have distinct splits (unrooted, no degree-2 node: the statement\'s quantifier)',
+    'packages': ALLPK,
+    'functions': [('tree.Compare$1', {'match': [r'^send\.stats\.(identical|no_specific|counts|record)', r'^callsite', r'^inv\..*L2', r'^nil', r'^bounds', r'^pre', r'^typeassert']}),
+                  ('tree.CompareWeighted$1', {'match': [r'^send\.stats\.(identical|record)', r'^callsite', r'^inv\..*L[234]', r'^nil', r'^bounds', r'^pre', r'^typeassert']})],
+    'trusted_base': TB_COMMON,
+    'assumptions': A_COMMON,
+    'not_decided': ['Common == |S1 n S2| as a set identity (needs the split-class abstraction of the index: C04 stretch)', 'symmetry under swapping the trees and independence of rooting (corollaries of the set formulation)', 'cmd/comparetrees.go RF/KF arithmetic'],
+}
+
+PROPS['C11'] = {
+    'level': 'other', 'claimed': True,
+    'claim': 'sufficient conditions for schedule independence and termination, proved on the real worker closures (Compare, CompareWeighted): (1) ownership - no store of a worker hits a variable captured from the enclosing function (every Store is checked against every captured cell); the shared index is only read through EdgeIndex.Value whose contract assigns nothing; (2) completion - wg.Done() is executed exactly once on every exit path, the closer waits and closes the result channel exactly once, the result channel is never nil/closed at a send; (3) one record is sent per received tree and the error of an erroneous tree reaches the record. Not an exploration of interleavings',
+    'level_note': 'A-OWN: ownership discipline implies data-race freedom and schedule independence under the Go memory model (trusted meta-theorem); sync.WaitGroup / channels / RWMutex semantics trusted; FBP and TBE workers are added as their contracts discharge',
+    'packages': ALLPK,
+    'functions': [('tree.Compare$1', {'match': [r'^ownership', r'^post\.done', r'^nilchan', r'^sendclosed', r'^send\.stats\.error', r'^inv\..*L1']}),
+                  ('tree.Compare$2', {}),
+                  ('tree.CompareWeighted$1', {'match': [r'^ownership', r'^post\.done', r'^nilchan', r'^sendclosed', r'^send\.stats\.error', r'^inv\..*L1']}),
+                  ('tree.CompareWeighted$2', {})],
+    'trusted_base': TB_COMMON + ['A-OWN: ownership discipline => race freedom and schedule independence (Go memory model)'],
+    'assumptions': A_COMMON,
+    'explanation': 'Deductive proof of an ownership + completion protocol on the worker closures; sequential VCs cannot enumerate interleavings, so the result is a sufficient-condition argument (DESIGN.md section 4, C11).',
+    'not_decided': ['real interleavings, buffer-size dependent deadlocks, fairness', 'object-level ownership of the received tree vs. the reference tree (callee contracts are thin)'],
+}
